@@ -53,16 +53,18 @@ theorem GL.gamma_pos {a b : Iterate α} (h : GL a b) (h0 : 0 < a.gamma) : 0 < b.
 /-- `backtrack_qub` performs some number `n` of halvings — exactly the number it adds to
     `stepsize_backtracks` —, and if `n ≥ 1` the last halving started from `L·2ⁿ⁻¹ < L_max`:
     with `L > 0` and `L_max` finite the loop ends after at most `⌊log₂(L_max/L)⌋ + 1` passes, whatever
-    the problem functions return (and whatever the stop flag says: it is not polled here). -/
-theorem backtrackQub_pow (P : Problem α) (pr : Params α) (f : Nat) (c : Iterate α) (t b : Nat) :
-    ∃ n : Nat, (backtrackQub P pr f c t b).2.2.1 = b + n ∧
-      (backtrackQub P pr f c t b).1.gamma = c.gamma / 2 ^ n ∧
-      (backtrackQub P pr f c t b).1.L = c.L * 2 ^ n ∧ (1 ≤ n → c.L * 2 ^ (n - 1) < pr.Lmax) := by
+    the problem functions return (a visible stop request only ends it earlier). -/
+theorem backtrackQub_pow (P : Problem α) (pr : Params α)
+    (stop : Nat → Bool) (f : Nat) (c : Iterate α) (t b : Nat) :
+    ∃ n : Nat, (backtrackQub P pr stop f c t b).2.2.1 = b + n ∧
+      (backtrackQub P pr stop f c t b).1.gamma = c.gamma / 2 ^ n ∧
+      (backtrackQub P pr stop f c t b).1.L = c.L * 2 ^ n ∧ (1 ≤ n → c.L * 2 ^ (n - 1) < pr.Lmax) := by
   induction f generalizing c t b with
   | zero => exact ⟨0, by simp [backtrackQub], by simp [backtrackQub], by simp [backtrackQub], by simp⟩
   | succ f ih =>
     unfold backtrackQub
-    split_ifs with hc
+    split_ifs with hst hc
+    · exact ⟨0, by simp, by simp, by simp, by simp⟩
     · obtain ⟨n, h1, h2, h3, h4⟩ := ih (backtrackStep P c) (t + 2) (b + 1)
       have hg : (backtrackStep P c).gamma = c.gamma / 2 := by
         simp [backtrackStep, evalPsiHat, evalProxGradStep]
@@ -83,83 +85,91 @@ theorem backtrackQub_pow (P : Problem α) (pr : Params α) (f : Nat) (c : Iterat
           rw [pow_succ']; rw [mul_assoc] at this; exact this
     · exact ⟨0, by simp, by simp, by simp, by simp⟩
 
-theorem backtrackQub_GL (P : Problem α) (pr : Params α) (f : Nat) (c : Iterate α) (t b : Nat) :
-    GL c (backtrackQub P pr f c t b).1 := by
-  obtain ⟨n, -, h2, h3, -⟩ := backtrackQub_pow P pr f c t b
+theorem backtrackQub_GL (P : Problem α) (pr : Params α)
+    (stop : Nat → Bool) (f : Nat) (c : Iterate α) (t b : Nat) :
+    GL c (backtrackQub P pr stop f c t b).1 := by
+  obtain ⟨n, -, h2, h3, -⟩ := backtrackQub_pow P pr stop f c t b
   exact ⟨n, h2, h3⟩
 
-theorem candidateFbe_GL (P : Problem α) (pr : Params α) (prox cand : Iterate α) (q : Vec α) (t : Nat) :
-    GL prox (candidateFbe P pr prox cand q t).1 := by
+theorem candidateFbe_GL (P : Problem α) (pr : Params α)
+    (stop : Nat → Bool) (prox cand : Iterate α) (q : Vec α) (t : Nat) :
+    GL prox (candidateFbe P pr stop prox cand q t).1 := by
   unfold candidateFbe
   simp only []
   split_ifs
-  · refine GL.trans (GL.of_eq ?_ ?_) (backtrackQub_GL P pr _ _ _ _) <;>
+  · refine GL.trans (GL.of_eq ?_ ?_) (backtrackQub_GL P pr stop _ _ _ _) <;>
       simp [evalPsiHat, evalProxGradStep]
   · exact GL.of_eq (by simp [evalProxGradStep]) (by simp [evalProxGradStep])
 
 theorem trAttempt_GL (co : Consts α) (P : Problem α) (dir : Direction D α) (pr : Params α)
-    (b : Mid α D) (hb : b.accept = false) (ha : (trAttempt co P dir pr b).accept = true) :
-    GL b.prox (trAttempt co P dir pr b).cand := by
+    (stop : Nat → Bool)
+    (b : Mid α D) (hb : b.accept = false) (ha : (trAttempt co P dir pr stop b).accept = true) :
+    GL b.prox (trAttempt co P dir pr stop b).cand := by
   unfold trAttempt at ha ⊢
   simp only [] at ha ⊢
   split_ifs at ha ⊢
-  · exact candidateFbe_GL P pr _ _ _ _
+  · exact candidateFbe_GL P pr stop _ _ _ _
   · exact absurd ha (by simp [hb])
 
-theorem trStage_GL (co : Consts α) (P : Problem α) (dir : Direction D α) (pr : Params α) (s : St α D) :
-    GL s.curr (trStage co P dir pr s).prox ∧
-    ((trStage co P dir pr s).accept = true → GL s.curr (trStage co P dir pr s).cand) := by
+theorem trStage_GL (co : Consts α) (P : Problem α) (dir : Direction D α) (pr : Params α)
+    (stop : Nat → Bool) (s : St α D) :
+    GL s.curr (trStage co P dir pr stop s).prox ∧
+    ((trStage co P dir pr stop s).accept = true → GL s.curr (trStage co P dir pr stop s).cand) := by
   have hp : GL s.curr (fbsStep P pr s).1 :=
     GL.of_eq (by simp [fbsStep, evalProxGradStep, evalPsiGradPsi])
       (by simp [fbsStep, evalProxGradStep, evalPsiGradPsi])
   unfold trStage
   simp only []
   split_ifs
-  · have h1 := trAttempt_spec co P dir pr
+  · have h1 := trAttempt_spec co P dir pr stop
       { curr := s.curr, prox := (fbsStep P pr s).1, cand := s.cand, gradPsiHat := (fbsStep P pr s).2.1,
         q := s.q, d := (dirInit dir s (fbsStep P pr s).1 (fbsStep P pr s).2.2).1,
         tick := (dirInit dir s (fbsStep P pr s).1 (fbsStep P pr s).2.2).2.2, accept := false,
         accelerated := (dirInit dir s (fbsStep P pr s).1 (fbsStep P pr s).2.2).2.1, Delta := s.Delta,
         rho := s.rho, failures := 0, backtracks := 0, fuelOut := false } rfl
     refine ⟨by rw [h1.2.1]; exact hp, fun ha => ?_⟩
-    exact GL.trans hp (trAttempt_GL co P dir pr _ rfl ha)
+    exact GL.trans hp (trAttempt_GL co P dir pr stop _ rfl ha)
   · exact ⟨hp, fun h => absurd h (by simp)⟩
 
-theorem acceptStage_GL (P : Problem α) (dir : Direction D α) (pr : Params α) (m : Mid α D) (t0 : Nat) :
-    GL m.cand (acceptStage P dir pr m t0).curr := by
+theorem acceptStage_GL (P : Problem α) (dir : Direction D α) (pr : Params α)
+    (stop : Nat → Bool) (m : Mid α D) (t0 : Nat) :
+    GL m.cand (acceptStage P dir pr stop m t0).curr := by
   unfold acceptStage
   simp only []
   split_ifs
-  · refine GL.trans (GL.of_eq ?_ ?_) (backtrackQub_GL P pr _ _ _ _) <;> simp [evalPsiHat]
+  · refine GL.trans (GL.of_eq ?_ ?_) (backtrackQub_GL P pr stop _ _ _ _) <;> simp [evalPsiHat]
   · exact GL.of_eq rfl rfl
 
-theorem rejectStage_GL (P : Problem α) (dir : Direction D α) (pr : Params α) (m : Mid α D) (t0 : Nat) :
-    GL m.prox (rejectStage P dir pr m t0).curr := by
+theorem rejectStage_GL (P : Problem α) (dir : Direction D α) (pr : Params α)
+    (stop : Nat → Bool) (m : Mid α D) (t0 : Nat) :
+    GL m.prox (rejectStage P dir pr stop m t0).curr := by
   unfold rejectStage
   simp only []
-  refine GL.trans (GL.of_eq ?_ ?_) (backtrackQub_GL P pr _ _ _ _) <;> simp [evalPsiHat]
+  refine GL.trans (GL.of_eq ?_ ?_) (backtrackQub_GL P pr stop _ _ _ _) <;> simp [evalPsiHat]
 
 /-- Across one iteration the step size of the current iterate is halved some number of times. -/
 theorem iterBody_GL (co : Consts α) (P : Problem α) (dir : Direction D α) (pr : Params α)
-    (s : St α D) (eps : α) : GL s.curr (iterBody co P dir pr s eps).curr := by
-  have h := trStage_GL co P dir pr s
+    (stop : Nat → Bool)
+    (s : St α D) (eps : α) : GL s.curr (iterBody co P dir pr stop s eps).curr := by
+  have h := trStage_GL co P dir pr stop s
   unfold iterBody
   simp only []
-  by_cases ha : (trStage co P dir pr s).accept
+  by_cases ha : (trStage co P dir pr stop s).accept
   · simp only [ha, if_true]
-    exact GL.trans (h.2 ha) (acceptStage_GL P dir pr _ _)
+    exact GL.trans (h.2 ha) (acceptStage_GL P dir pr stop _ _)
   · simp only [ha, Bool.false_eq_true, if_false]
-    exact GL.trans h.1 (rejectStage_GL P dir pr _ _)
+    exact GL.trans h.1 (rejectStage_GL P dir pr stop _ _)
 
 /-- The first iterate: `γ₀ = Lγ_factor / L₀`, then some halvings. -/
-theorem initState_GL (co : Consts α) (P : Problem α) (d0 : D) (pr : Params α) (x0 gV : Vec α)
-    (s : St α D) (hi : initState co P d0 pr x0 gV = .inr s) :
+theorem initState_GL (co : Consts α) (P : Problem α) (d0 : D) (pr : Params α)
+    (stop : Nat → Bool) (x0 gV : Vec α)
+    (s : St α D) (hi : initState co P d0 pr stop x0 gV = .inr s) :
     ∃ c0 : Iterate α, c0.gamma = pr.LgammaFactor / c0.L ∧ GL c0 s.curr := by
   unfold initState at hi
   simp only [] at hi
   split_ifs at hi
   injection hi with hi; subst hi
-  exact ⟨firstStep P pr (lipschitzStage co P pr x0 gV).1, rfl, backtrackQub_GL P pr _ _ _ _⟩
+  exact ⟨firstStep P pr (lipschitzStage co P pr x0 gV).1, rfl, backtrackQub_GL P pr stop _ _ _ _⟩
 
 /-! ### Trust radius -/
 
